@@ -12,7 +12,7 @@ use serde_json::json;
 pub static MONITOR: Monitor = Monitor {
     id: "C17",
     title: "CSS never breaks rendering; insignificant CSS syntax does not matter",
-    rule: "Three case kinds. (a) totality: strings from three generators - random bytes as lossy UTF-8, token soup over the CSS token alphabet (idents, #, ., :, ;, braces, brackets, strings with and without terminators, escapes, @-keywords, 11+ digit numbers, %, !, <!--, -->, open/closed comments, :nth-child( fragments, NUL, non-ASCII), truncations and token deletions of valid sheets - are given to add_css and add_agent_css: the result must be Ok or Err(CssParseError) (panic, fuel exhaustion at the hooked tokenizer loop, other errors and watchdog timeouts are violations). (b) inertness: a document with <style>s</style> or style=\"s\" rendered with use_doc_css must succeed exactly when the document without s does, with the same token text, unless s parses to a display/content/white-space declaration (decided from html2text::dom_to_parsed_style; such cases are counted and skipped). (c) syntax independence: a valid sheet S from the supported grammar (selector lists over element/class/id/universal/compound/child/descendant/:nth-child; color/background/background-color/display:none; named, #rgb, #rrggbb, rgb() colours; !important) and a variant v(S) (minified, pretty-printed, comments between tokens, upper/mixed-case property names and hex digits, final ';' dropped or doubled, unknown properties interleaved, unknown at-rules and unparsable rule sets between rules) must give identical rich tagged lines on a class/id-rich document, through add_css and through <style>. Distinct/non-trivial = distinct CSS strings that are accepted (a), distinct (document, s) pairs (b), distinct (S, v(S)) pairs where the variant differs as text and S styles at least one token (c).",
+    rule: "Three case kinds. (a) totality: strings from three generators - random bytes as lossy UTF-8, token soup over the CSS token alphabet (idents, #, ., :, ;, braces, brackets, strings with and without terminators, escapes, @-keywords, 11+ digit numbers, %, !, <!--, -->, open/closed comments, :nth-child( fragments, NUL, non-ASCII), truncations and token deletions of valid sheets - are given to add_css and add_agent_css: the result must be Ok or Err(CssParseError) (panic, fuel exhaustion at the hooked tokenizer loop, other errors and watchdog timeouts are violations). (b) inertness: a document with <style>s</style> or style=\"s\" rendered with use_doc_css must succeed exactly when the document without s does, with the same token text, unless s parses to a display/content/white-space declaration (decided from html2text::dom_to_parsed_style; such cases are counted and skipped). (c) syntax independence: a valid sheet S from the supported grammar (selector lists over element/class/id/universal/compound/child/descendant/:nth-child; color/background/background-color/display:none; named, #rgb, #rrggbb, rgb() colours; !important) and a variant v(S) (minified, pretty-printed, comments between tokens, upper/mixed-case property names and hex digits, final ';' dropped or doubled, unknown properties interleaved, unknown at-rules and unparsable rule sets between rules) must give identical rich tagged lines on a class/id-rich document, through add_css and through <style> (where the variant document may also carry a broken <style> element of its own in front; in (b) a well-formed second <style> with display:none rules may follow the one under test and must keep its effect). Distinct/non-trivial = distinct CSS strings that are accepted (a), distinct (document, s) pairs (b), distinct (S, v(S)) pairs where the variant differs as text and S styles at least one token (c).",
     assumptions: &[
         "selector names in (c) are lower-case (case sensitivity of class/id names is C20's subject)",
         "(b) skips style strings containing '</style' or a quote that would end the attribute",
@@ -105,23 +105,36 @@ fn run_case(seed: u64, idx: u64, _tier: Tier, out: &mut CaseOut) {
                 return;
             }
             let as_attr = rng.chance(1, 3);
+            // a second, well-formed <style> after the one under test: s must not
+            // reach into it (each style element is a sheet of its own)
+            let second = if !as_attr && rng.chance(1, 3) {
+                format!("<style>.c{} {{ display: none }} em {{ display: none; }}</style>", rng.below(4))
+            } else {
+                String::new()
+            };
+            let only_s: Vec<u8> = format!("<style>{}</style>", s).into_bytes();
             let with_s: Vec<u8> = if as_attr {
                 let mut v = format!("<div style=\"{}\">", s).into_bytes();
                 v.extend_from_slice(&body);
                 v.extend_from_slice(b"</div>");
                 v
             } else {
-                let mut v = format!("<style>{}</style>", s).into_bytes();
+                let mut v = format!("<style>{}</style>{}", s, second).into_bytes();
                 v.extend_from_slice(&body);
                 v
             };
+            if !second.is_empty() {
+                out.inc("b:with_second_style_element");
+            }
             let without: Vec<u8> = if as_attr {
                 let mut v = b"<div>".to_vec();
                 v.extend_from_slice(&body);
                 v.extend_from_slice(b"</div>");
                 v
             } else {
-                body.clone()
+                let mut v = second.clone().into_bytes();
+                v.extend_from_slice(&body);
+                v
             };
             // does s legitimately affect text?
             let affects = if as_attr {
@@ -129,7 +142,7 @@ fn run_case(seed: u64, idx: u64, _tier: Tier, out: &mut CaseOut) {
                     .iter()
                     .any(|k| s.to_ascii_lowercase().contains(k))
             } else {
-                match parsed_style(&with_s) {
+                match parsed_style(&only_s) {
                     Outcome::Ok(ps) => ps.contains("display") || ps.contains("content") || ps.contains("white-space"),
                     o => {
                         if !o.is_total() {
@@ -205,9 +218,26 @@ fn run_case(seed: u64, idx: u64, _tier: Tier, out: &mut CaseOut) {
             out.inc("c:pairs");
             let via_style = rng.chance(1, 3);
             let w = pick_width(&mut rng, 100);
-            let render = |css: &str| -> Outcome<Vec<Line>> {
+            // the variant document may carry a broken <style> of its own in front
+            const BROKEN_STYLES: [&str; 8] = [
+                "}",
+                ".zz { color: red",
+                "/* never closed",
+                "@media screen {",
+                "<!--",
+                ".zz[ { color: red }",
+                ".zz { color: red; } } ]",
+                "@import url(",
+            ];
+            let broken = if via_style && rng.chance(1, 3) {
+                out.inc("c:broken_style_element_in_front");
+                format!("<style>{}</style>", rng.pick(&BROKEN_STYLES))
+            } else {
+                String::new()
+            };
+            let render = |css: &str, pre: &str| -> Outcome<Vec<Line>> {
                 if via_style {
-                    let mut v = format!("<style>{}</style>", css).into_bytes();
+                    let mut v = format!("{}<style>{}</style>", pre, css).into_bytes();
                     v.extend_from_slice(&body);
                     let mut cfg = Cfg::rich();
                     cfg.use_doc_css = true;
@@ -218,11 +248,11 @@ fn run_case(seed: u64, idx: u64, _tier: Tier, out: &mut CaseOut) {
                     render_lines(&cfg, &body, w)
                 }
             };
-            let a = render(&canonical);
-            let b = render(&variant);
+            let a = render(&canonical, "");
+            let b = render(&variant, &broken);
             out.evals += 2;
             if let Outcome::Ok(la) = &a {
-                if variant != canonical && styled_tokens(la) > 0 {
+                if (variant != canonical || !broken.is_empty()) && styled_tokens(la) > 0 {
                     out.inc("c:variant_differs_and_styles");
                     out.observe(crate::rng::hash_str(&variant));
                 }
@@ -257,12 +287,15 @@ fn run_case(seed: u64, idx: u64, _tier: Tier, out: &mut CaseOut) {
                 if st.junk_rulesets {
                     feats.push("junk-ruleset");
                 }
+                if !broken.is_empty() {
+                    feats.push("broken-style-element-in-front");
+                }
                 // narrow down: which single feature reproduces it?
                 let sig = feats.join("+");
                 out.violate(
                     format!("variant-styles-differently:{}", sig),
                     format!("a syntactic variant of a valid sheet styles the document differently (features: {})", sig),
-                    json!({"canonical": canonical, "variant": variant, "input": String::from_utf8_lossy(&body), "width": w, "via_style_element": via_style,
+                    json!({"canonical": canonical, "variant": variant, "input": String::from_utf8_lossy(&body), "width": w, "via_style_element": via_style, "broken_style_in_front": broken,
                            "canonical_result": format!("{:?}", a).chars().take(600).collect::<String>(),
                            "variant_result": format!("{:?}", b).chars().take(600).collect::<String>()}),
                 );
